@@ -23,13 +23,52 @@ def lex_signed(line, gen_pre=False):
     return {"sign": sign, "ind": lead, "row": rest.split()}
 
 
+class _OneRulebook:
+    """a rulebook provider that serves one compiled rulebook whatever the hardware (for driving production callers on catalogue rulebooks)"""
+    def __init__(self, rb):
+        self.rb = rb
+
+    def get_rulebook(self, hw):
+        return self.rb
+
+
+def worker_diff(cat, rb, old, new):
+    """what `annet diff` computes: annet.diff.worker on an OldNewResult holding (old, new) -- make_diff(old, order_config(new)) stripped of
+    the unchanged lines.  The catalogue rulebooks carry no ordering rules, so the ordered configuration is the configuration itself."""
+    import types
+    from annet import diff as ann_diff
+    from annet.types import OldNewResult
+    from annet.rulebook import rulebook_provider_connector
+    saved_on, saved_p = ann_diff.old_new, getattr(rulebook_provider_connector, "_cache", None)
+    res = OldNewResult(device=cat.device, old=old, new=new, acl_rules=None)
+    ann_diff.old_new = lambda *a, **k: iter([res])
+    rulebook_provider_connector._cache = _OneRulebook(rb)
+    try:
+        return ann_diff.worker(1, types.SimpleNamespace(config="running", clear=False, acl_safe=False), None, None, None)
+    finally:
+        ann_diff.old_new = saved_on
+        rulebook_provider_connector._cache = saved_p
+
+
+_N = [0]
+
+
 def observe(cat, k, old_j, new_j):
     from annet import patching
     from annet.annlib.diff import gen_pre_as_diff
     rb = cat.compiled[k - 1]
     old, new = cases.tree(old_j), cases.tree(new_j)
-    d = patching.make_diff(old, new, rb, [])
-    ds = patching.strip_unchanged(d)
+    _N[0] += 1
+    if _N[0] % 3 == 0:
+        # the shown diff as the production caller computes it: `annet diff` compares the device with the ORDERED desired configuration
+        # (ordering is C08's subject: the pair judged here is (old, order_config(new)), the worker is given (old, new))
+        new = patching.Orderer(rb["ordering"], cat.vendor).order_config(new)
+        new_j = cases.jtree(new)
+        d = patching.make_diff(old, new, rb, [])
+        ds = worker_diff(cat, rb, cases.tree(old_j), cases.tree(new_j))
+    else:
+        d = patching.make_diff(old, new, rb, [])
+        ds = patching.strip_unchanged(d)
     dself = patching.make_diff(old, old, rb, [])
     flines = [lex_signed(l) for l in cat.formatter.diff(ds)]
     glines = [lex_signed(l.rstrip("\n"), True) for l in gen_pre_as_diff(patching.make_pre(ds), False, "  ", True)]
